@@ -736,6 +736,7 @@ def c05(tier, rng, fam='C05'):
             b.step('wait')
             out.append(b.q().done())
     out += refused_write_then_calls(fam)
+    out += paused_handler_backlog(fam)
     # (d) a unary call given up at the very moment its reply has been handed to it (both branches of the
     # caller's select are ready: Go picks either): whatever that call reports, the NEXT calls get their own
     # replies - nothing of an abandoned call may survive into a later one
@@ -1243,4 +1244,32 @@ def refused_write_then_calls(fam):
             for k in range(n_later):
                 b.step('hop', c=2 + k, h=ret(pay='p%d' % (2 + k)))
             out.append(b.q().done())
+    return out
+
+
+def paused_handler_backlog(fam):
+    """a stream handler that is momentarily not receiving while n messages arrive for it, next to other open
+    streams: when it resumes it gets them in the order sent (and the other streams are unaffected)"""
+    out = []
+    for kind in ('cs', 'bidi'):
+        for n in (3, 6, 12, 40, 40):
+            for nother in (1, 2):
+                b = B(fam, '%s handler paused while %d messages arrive, %d other stream(s) open' % (kind, n, nother), ser=bool(n % 2))
+                for o in range(nother):
+                    b.step('sopen', c=10 + o, kind='bidi', hp=[dict(o='echo')])
+                    b.step('send', c=10 + o, pay='o%d.0' % o).step('recv', c=10 + o)
+                b.step('sopen', c=1, kind=kind, hp=[])
+                if n >= 12:
+                    b.step('auto', dir='c2s', on=False)      # the whole backlog reaches the server in one go
+                for i in range(n):
+                    b.step('send', c=1, pay='m%d' % i)
+                b.step('close', c=1)
+                if n >= 12:
+                    b.step('auto', dir='c2s', on=True)
+                b.q()
+                b.step('hops', c=1, hp=[dict(o='drain'), dict(o='send', pay='sum'), ret()])
+                b.step('recv', c=1, n=2)
+                for o in range(nother):
+                    b.step('send', c=10 + o, pay='o%d.1' % o).step('recv', c=10 + o).step('close', c=10 + o).step('recv', c=10 + o)
+                out.append(b.q().done())
     return out
